@@ -4,3 +4,4 @@ INVARIANT Inv_NoException
 INVARIANT Inv_Concat
 INVARIANT Inv_Fits
 INVARIANT Inv_ArticleGlued
+INVARIANT Inv_RepeatableCall
